@@ -8,6 +8,9 @@ Driver for C15.  Protocol (one case; `-` = absent / empty):
       <alignVarDecls|-> <alignAssignments|-> <maxLineLength|-> <spacingStyle-hex|-> <endKeywordStyle-hex|->
   src <hex of the UTF-8 source>
   toks <Name>:<start>:<end> …         every token of `trust_syntax::lex` except Whitespace, in order
+  relex <i,j,…|->                      indexes of the lines whose GLUED token text does not re-lex to the line's
+                                       tokens (verdict of `relexes_to`, computed by the harness with the real
+                                       lexer on the texts printed by `driver c15 glued`); builds the document
   full                                 -> m <reply>      reply = panic | null | edits [sl:sc:el:ec:<hex>]…
   range <sl> <sc> <el> <ec>            -> m <reply>
   ontype <line> <character>            -> m <reply>
@@ -19,7 +22,9 @@ Driver for C15.  Protocol (one case; `-` = absent / empty):
   lexcheck                             -> m ok | m unwitnessed:<A+B,…>   every glued-unsafe class pair was
                                           witnessed on the real lexer as the only unsafe pair of a failing chain
 `src` / `toks` may be repeated inside a case (the second formatting of the idempotence test).
-Second mode `driver c15 guards`: prints `g <case> <docIndex> <guard,…|->` for every `toks` line.
+Second mode `driver c15 guards`: prints `g <case> <docIndex> <guard,…|->` for every document.
+Third mode `driver c15 glued`: prints `q <case> <docIndex> <line>:<hex of glued text> …` for every document (only
+lines where glued and one-space text differ); the `relex` lines of its input are ignored.
 -/
 namespace TrustVerif.Drv.C15
 open TrustVerif.C15 TrustVerif.C15.Gen TrustVerif.Drv
@@ -28,6 +33,7 @@ structure St where
   caseNo : String := "?"
   cfg : Option Config := none
   src : Option ByteArray := none
+  rawToks : Option (List RawTok) := none
   built : Option Built := none
   docIndex : Nat := 0
   witnessed : List (String × String) := []
@@ -99,7 +105,12 @@ def withDoc (st : St) (f : Config → Built → String) : St × Option String :=
   | some cfg, some bd => (st, some ("m " ++ f cfg bd))
   | _, _ => (st, some "bad-op")
 
-def step (guards : Bool) (st : St) (line : String) : St × Option String :=
+inductive Mode where
+  | model | guards | glued
+  deriving DecidableEq
+
+def step (mode : Mode) (st : St) (line : String) : St × Option String :=
+  let guards := mode != .model
   match words line with
   | ["case", n] => ({ witnessed := st.witnessed, pairsSeen := st.pairsSeen, caseNo := n }, none)
   | ["end"] => (st, none)
@@ -116,20 +127,28 @@ def step (guards : Bool) (st : St) (line : String) : St × Option String :=
     | none => (st, some "bad-op")
   | "toks" :: ws =>
     let ws := if ws = ["-"] then [] else ws
-    match st.src, ws.mapM parseTok with
-    | some b, some toks =>
-      match buildDoc b toks with
+    match ws.mapM parseTok with
+    | some toks => ({ st with rawToks := some toks, built := none }, none)
+    | none => (st, some "bad-op")
+  | ["relex", r] =>
+    let idx : Option (List Nat) :=
+      if mode == .glued || r = "-" then some [] else (r.splitOn ",").mapM String.toNat?
+    match st.src, st.rawToks, idx with
+    | some b, some toks, some idx =>
+      match buildDoc b toks idx with
       | some bd =>
         let st' := { st with built := some bd, docIndex := st.docIndex + 1 }
-        if guards then
-          match st.cfg with
-          | some cfg =>
-            let gs := docGuards cfg bd ++ webGuards bd
-            (st', some s!"g {st.caseNo} {st.docIndex} {if gs.isEmpty then "-" else joinWith "," gs}")
-          | none => (st', some "bad-op")
-        else (st', none)
+        match mode, st.cfg with
+        | .model, _ => (st', none)
+        | .guards, some cfg =>
+          let gs := docGuards cfg bd ++ webGuards bd
+          (st', some s!"g {st.caseNo} {st.docIndex} {if gs.isEmpty then "-" else joinWith "," gs}")
+        | .glued, some cfg =>
+          let qs := (relexQueries cfg bd.doc).map fun (i, g) => s!"{i}:{hexOfText g}"
+          (st', some s!"q {st.caseNo} {st.docIndex} {if qs.isEmpty then "-" else joinWith " " qs}")
+        | _, none => (st', some "bad-op")
       | none => (st, some "bad-op")
-    | _, _ => (st, some "bad-op")
+    | _, _, _ => (st, some "bad-op")
   | ["full"] =>
     if guards then (st, none) else
     withDoc st fun cfg bd => showReply (fullFormat cfg bd.src bd.doc)
@@ -182,10 +201,10 @@ def step (guards : Bool) (st : St) (line : String) : St × Option String :=
   | _ => (st, some "bad-op")
 
 def main (lines : Array String) (args : List String) : IO Unit := do
-  let guards := args.contains "guards"
+  let mode : Mode := if args.contains "guards" then .guards else if args.contains "glued" then .glued else .model
   let mut st : St := {}
   for line in lines do
-    let (st', out) := step guards st line
+    let (st', out) := step mode st line
     st := st'
     match out with
     | some o => IO.println o
